@@ -158,7 +158,7 @@ def run_check(prop_id, tier):
     rng = random.Random((seed, prop_id, tier).__repr__())
     findings = C.load_known_findings(prop_id)
     fp = C.source_fingerprint()
-    gate = C.coq_gate(prop_id, full=False)
+    gate = C.coq_gate(prop_id, full=False, chk=(tier == "thorough"))
     violations_out = []
 
     def report(payload, nofail=False):
@@ -239,6 +239,7 @@ def run_check(prop_id, tier):
         "input_distribution": out.dist,
         "explanation": getattr(mod, "EXPLANATION", ""),
         "coq_gate_s": gate["wall_s"],
+        "coqchk": gate.get("coqchk", "not run in this tier (thorough only)"),
     }
     try:
         cov.update(extra_ev)
